@@ -27,7 +27,7 @@ BASELINE = json.loads(Path("/root/.vp/BASELINE.json").read_text()) if Path("/roo
 
 
 def make_copy(name: str) -> Path:
-    d = SCRATCH / name
+    d = SCRATCH / f"{name}-{os.getpid()}"  # several runs may be going on at once
     if d.exists():
         shutil.rmtree(d)
     d.mkdir(parents=True)
@@ -40,7 +40,7 @@ def run_checks(d: Path, checks, tier, workers):
     for c in checks:
         env = dict(os.environ, VERIF_BELLOWS_PATH=str(d), VERIF_EVIDENCE_DIR=str(d / ".ev"),
                    VERIF_REPLAY_DIR=str(d / ".rp"), VERIF_WORKERS=str(workers),
-                   VERIF_SCRATCH=f"/dev/shm/rtmon-st-{d.name}-{c}")
+                   VERIF_SCRATCH=f"/dev/shm/rtmon-st-{d.name}-{c}-{os.getpid()}")
         t0 = time.time()
         p = subprocess.run([str(ROOT / "check"), c, tier], env=env, capture_output=True, text=True, timeout=3600)
         keys = sorted({ln.split("key=")[1].split(":")[0] for ln in p.stdout.splitlines() if "violation key=" in ln})
